@@ -108,6 +108,8 @@ def check_C09(tier, seed, res, replay=None):
             alias_b(c, rng)
         elif r < 0.12:
             extend_b(c, rng)
+        if rng.random() < 0.1:
+            c["amode"] = "copy"
         p = rng.choice([0, 0, 1, 3, 7])
         for sel in ("anti", "cd", "cb"):
             cases.append(dict(c, op="faincl", sel=sel, perturb=p))
@@ -220,6 +222,8 @@ def c10_variants(c, rng):
             extend_b(d, rng)
         if kind == "isect" and rng.random() < 0.3:
             d["nomap"] = True
+        if rng.random() < 0.12:
+            d["amode"] = "copy"
         out.append(d)
     out.append(with_pre(dict(present_nfa_pair(c, rng, disjoint=True), op="faop", kind="uniondisj"), rng))
     for kind, src in (("reverse", "A"), ("unreach", "B"), ("useless", "A"), ("witness", "B")):
@@ -227,6 +231,8 @@ def c10_variants(c, rng):
              "A": gen.nfa_present(c[src], rng, rng.choice(["id", "rev", "sparse"]))}
         if rng.random() < 0.4:
             d["preA"] = rng.choice(PRE)
+        if rng.random() < 0.12:
+            d["amode"] = "copy"
         out.append(d)
     return out
 
